@@ -50,9 +50,12 @@ try:
     for c in checks:
         env = "VERIF_REPO=%s" % d
         rc, out = sh("%s ./check %s --tier %s" % (env, c, tier), cwd="/verif", timeout=7200)
+        # a detection only counts if the same check is silent on the unchanged copy (lesson of C07-w2s2 / C19-w2s1:
+        # baseline classes that were not listed yet had made two changes look detected)
+        rc_clean, _ = sh("VERIF_REPO=%s ./check %s --tier %s" % (clean, c, tier), cwd="/verif", timeout=7200)
         viol = [l for l in out.splitlines() if l.startswith("VIOLATION")]
         cls = [l.strip() for l in out.splitlines() if l.startswith("  class:")]
-        res["checks"][c] = {"tier": tier, "exit": rc, "violation_lines": len(viol), "first_classes": cls[:4]}
+        res["checks"][c] = {"tier": tier, "exit": rc, "exit_on_unchanged_copy": rc_clean, "violation_lines": len(viol), "first_classes": cls[:4]}
         print("check %s on changed tree: exit %d, %d VIOLATION lines" % (c, rc, len(viol)))
         for l in cls[:3]:
             print("   " + l[:300])
@@ -64,7 +67,7 @@ try:
             shutil.copy(p, dst)
     meta.update({"breaks_property": pid, "confirmation": res,
                  "what_was_run": "tools/confirmseed.py: scratch copy of /repo + patch, make, make -k check, demo with/without, ./check %s --tier %s with VERIF_REPO=<copy>" % (" ".join(checks), tier),
-                 "detected_by": [c for c in checks if res["checks"][c]["exit"] == 1]})
+                 "detected_by": [c for c in checks if res["checks"][c]["exit"] == 1 and res["checks"][c]["exit_on_unchanged_copy"] == 0]})
     json.dump(meta, open(os.path.join(dst, "meta.json"), "w"), indent=1)
     print("seed %s: applies=%s builds=%s baseline_passes=%s demo_ok=%s detected_by=%s" % (
         name, res["applies"], res["builds"], res["baseline_passes"], res["demo_ok"], meta["detected_by"]))
